@@ -23,6 +23,7 @@ fn main() {
     let mut programs: Option<usize> = std::env::var("E3_PROGRAMS").ok().and_then(|s| s.parse().ok());
     let mut pass: Vec<String> = vec![];
     let mut dump = false;
+    let mut trace = false;
     let mut mermaid = false;
     let mut only: Option<Vec<String>> = None;
     let mut it = argv.iter();
@@ -41,6 +42,7 @@ fn main() {
             }
             "--programs" => programs = it.next().and_then(|s| s.parse().ok()),
             "--dump" => dump = true,
+            "--trace" => trace = true,
             "--mermaid" => {
                 dump = true;
                 mermaid = true;
@@ -73,6 +75,29 @@ fn main() {
             eprintln!("HARNESS: the reference interpreter contradicts the operator documentation: {e}");
             std::process::exit(2);
         }
+    }
+    if let (Some(path), true) = (&replay, trace) {
+        // debugging aid: per-node outputs of the reference interpreter for a replay file
+        let corp = corpus::from_replay(&prop, path).unwrap_or_else(|e| {
+            eprintln!("HARNESS: {e}");
+            std::process::exit(2)
+        });
+        let prog = &corp.entries[0].variants[0].1;
+        let (_, vals, _) = simcore::runner::read_replay(path);
+        let mut sim = simcore::Sim::replay(vals);
+        let mut plan = e3_core::drive::draw_plan(&mut sim, prog.n_chans);
+        let _ = e3_core::drive::predict(prog, &mut plan);
+        let mut it = e3_core::interp::Interp::new(prog);
+        it.trace = Some(vec![]);
+        for st in &plan.steps {
+            println!("step arrivals {:?} avail={}", st.arrivals, st.avail);
+            let o = it.run_tick(&st.arrivals);
+            for l in it.trace.as_mut().unwrap().drain(..) {
+                println!("  {l}");
+            }
+            println!("  => sinks {:?}", o.sinks);
+        }
+        return;
     }
     let t0 = std::time::Instant::now();
     let corp = match &replay {
